@@ -52,7 +52,7 @@ theorem getD_set (l : List Bool) (x y : Nat) (b : Bool) (hx : x < l.length) :
 /-- … and the driver's `alive` flags describe exactly the list of constructed containers the theorems carry along -/
 theorem api_step_alive (ac : ApiCfg) (s : Sys) (op : Op) (f : List Nat) (m : MOp Int) (A : List Nat)
     (h : toMOp s op = some m) (hlen : s.alive.length = 4) (hA : ∀ c, c ∈ A ↔ s.isAlive c = true)
-    (hx : ∀ x, (match op with | .newv x _ _ _ | .newn x _ _ | .newr x _ _ _ | .newg x _ _ | .newc x _ _ | .newm x _ _ | .del x => x | _ => 0) = x → x < 4) :
+    (hx : ∀ x, (match op with | .new x _ | .newv x _ _ _ | .newn x _ _ | .newr x _ _ _ | .newg x _ _ | .newc x _ _ | .newm x _ _ | .del x => x | _ => 0) = x → x < 4) :
     ∀ c, c ∈ (System.step ac.cfg ⟨s.w, A⟩ (m, f)).A ↔ (resSys (s.step ac op f)).isAlive c = true := by
   have hb := bridge ac s op m { s.w with faults := f } rfl h
   intro c
@@ -143,7 +143,9 @@ theorem api_step_alive (ac : ApiCfg) (s : Sys) (op : Op) (f : List Nat) (m : MOp
     | swp x y => injection h with h; subst h; show c ∈ A ↔ Sys.isAlive _ c = true; exact Iff.trans (hA c) (same _ rfl).symm
     | appc x y => injection h with h; subst h; show c ∈ A ↔ Sys.isAlive _ c = true; exact Iff.trans (hA c) (same _ rfl).symm
     | appm x y => injection h with h; subst h; show c ∈ A ↔ Sys.isAlive _ c = true; exact Iff.trans (hA c) (same _ rfl).symm
-    | new x a => cases h
+    | new x a =>
+      injection h with h; subst h
+      show c ∈ x :: A ↔ (setAlive _ x true).isAlive c = true; exact Iff.trans (by simp [hA]) (born _ x rfl (hx x rfl)).symm
     | newn x n a =>
       injection h with h; subst h
       show c ∈ x :: A ↔ (setAlive _ x true).isAlive c = true; exact Iff.trans (by simp [hA]) (born _ x rfl (hx x rfl)).symm
@@ -187,7 +189,7 @@ theorem api_reachable_sys (ac : ApiCfg) (hpol : StrongPolicy ac.cfg) :
     have hsys := api_step_sys ac [0, 1, 2, 3] hpol s op f m A hm hs hv
     rw [resWorld_eq] at hsys
     have m4 : ∀ x, x ∈ [0, 1, 2, 3] → x < 4 := fun x hx => by simp at hx; omega
-    have hx : ∀ x, (match op with | .newv x _ _ _ | .newn x _ _ | .newr x _ _ _ | .newg x _ _ | .newc x _ _ | .newm x _ _ | .del x => x | _ => 0) = x → x < 4 := by
+    have hx : ∀ x, (match op with | .new x _ | .newv x _ _ _ | .newn x _ _ | .newr x _ _ _ | .newg x _ _ | .newc x _ _ | .newm x _ _ | .del x => x | _ => 0) = x → x < 4 := by
       intro x hxe
       cases op with
       | newv y n v a => injection hm with hm; subst hm; subst hxe; exact m4 _ hv.1
@@ -197,6 +199,7 @@ theorem api_reachable_sys (ac : ApiCfg) (hpol : StrongPolicy ac.cfg) :
         | fw => injection hm with hm; subst hm; subst hxe; exact m4 _ hv.1
       | newg y a vs => injection hm with hm; subst hm; subst hxe; exact m4 _ hv.1
       | newn y n a => injection hm with hm; subst hm; subst hxe; exact m4 _ hv.1
+      | new y a => injection hm with hm; subst hm; subst hxe; exact m4 _ hv.1
       | newc y z a =>
         cases a with
         | none => cases hm
